@@ -175,7 +175,10 @@ def match_stmts(ctx, rule, construct, body, specs, names=None, mod=None, node=No
     does not contain the statements is a violation, a body using other vocabulary is an analysis error."""
     names = names or {}
     got = [rename(s, names) for s in body if not (isinstance(s, ast.Expr) and isinstance(s.value, ast.Constant))]
-    want = [ast.parse(s).body[0] for s in specs]
+    from . import alpha
+    wm = ast.parse("\n".join(specs))
+    alpha.split_tuple_assigns(wm)               # the analysed tree has one binding per statement (model normalisation)
+    want = list(wm.body)
     gk, wk = [stmt_key(s) for s in got], [stmt_key(s) for s in want]
     ok = (gk == wk) if exact else all(k in gk for k in wk)
     req = required or "; ".join(specs)
@@ -218,3 +221,20 @@ def head(st):
     if isinstance(st, ast.Expr) and isinstance(st.value, ast.Call):
         return "call:" + ast.unparse(st.value.func)
     return type(st).__name__
+
+
+def values_of(body, names):
+    """the values bound to `names` at the top level of `body` as an ast.Tuple (one assignment each, or one tuple assignment); None if any is missing"""
+    found = {}
+    for st in body:
+        if isinstance(st, ast.Assign) and len(st.targets) == 1:
+            t = st.targets[0]
+            if isinstance(t, ast.Name) and t.id in names:
+                found[t.id] = st.value
+            elif isinstance(t, ast.Tuple) and isinstance(st.value, ast.Tuple) and len(t.elts) == len(st.value.elts):
+                for a, v in zip(t.elts, st.value.elts):
+                    if isinstance(a, ast.Name) and a.id in names:
+                        found[a.id] = v
+    if any(n not in found for n in names):
+        return None
+    return ast.Tuple(elts=[found[n] for n in names], ctx=ast.Load())
